@@ -1129,7 +1129,16 @@ func goExprFor(_e sqlparser.Expr) (goexpr.Expr, error) {
 	}
 }
 
-func goFnExprFor(e *sqlparser.FuncExpr, fname string) (goexpr.Expr, error) {
+func goFnExprFor(e *sqlparser.FuncExpr, fname string) (result goexpr.Expr, err error) {
+	defer func() {
+		// The constructors of some functions panic when given parameters of the
+		// wrong number or kind (e.g. CONCAT(), or LUA with non-array parameters)
+		if p := recover(); p != nil {
+			result = nil
+			err = fmt.Errorf("Invalid parameters to function %v: %v", fname, p)
+		}
+	}()
+
 	alias, foundAlias := aliases[fname]
 	if foundAlias {
 		return applyAlias(e, alias)
